@@ -71,7 +71,7 @@ vars  == <<sh, lp, ac, ncalls, g, ga, bad>>
 \* ===================================================================================
 GInit == [run |-> FALSE, saved |-> FALSE, dirty |-> FALSE, armed |-> FALSE, pendNW |-> FALSE,
           pendFinal |-> FALSE, mustDone |-> FALSE, finalRet |-> FALSE, finalOpen |-> FALSE,
-          revoked |-> FALSE, window |-> FALSE, dc |-> 0, k |-> 0, last |-> "none"]
+          revoked |-> FALSE, window |-> FALSE, everStop |-> FALSE, dc |-> 0, k |-> 0, last |-> "none"]
 GAIdle == [cl |-> FALSE, wf |-> FALSE, fr |-> FALSE, ph |-> "none", kind |-> "none"]
 GAInit(A) == [a \in A |-> GAIdle]
 
@@ -81,19 +81,21 @@ RevTag(gg) == IF gg.revoked THEN "@FinalRevoked" ELSE ""
 \* --- a controller (or the loop thread itself, actor 0) enters a call -----------------------------
 \* "running" (gg.run): a start() has returned normally and since then no stop() was entered, no start()
 \* was entered and the loop has not reached its finally block.  A stop() is judged ("clean", cl) only if it
-\* was entered while running and while no other stop() was in progress: "stop() for a started service".
+\* was entered while running and no other stop() overlaps it (two overlapping stop() calls may take effect in
+\* either order, and a final stop() after a non-final one is a stop of a service that is no longer started):
+\* "stop() for a started service".  Entering a start() un-judges every stop()/wait() in progress.
 GCallG(gg, gaa, a, kd) ==
   IF kd = "start" THEN
      [gg EXCEPT !.saved = gg.run, !.run = FALSE, !.dirty = FALSE, !.armed = FALSE, !.pendNW = FALSE, !.pendFinal = FALSE,
                 !.last = "none"]
   ELSE IF IsStop(kd) THEN
-     [gg EXCEPT !.run = FALSE, !.dirty = TRUE,
+     [gg EXCEPT !.run = FALSE, !.dirty = TRUE, !.everStop = TRUE,
                 !.revoked = gg.revoked \/ (~Fin(kd) /\ gg.finalOpen)
                             \/ (Fin(kd) /\ \E b \in DOMAIN gaa : IsStop(gaa[b].kind) /\ ~Fin(gaa[b].kind)),
                 !.finalOpen = gg.finalOpen \/ Fin(kd)]
   ELSE gg
 GCallA(gg, gaa, a, kd) ==
-  LET base == IF kd = "start" THEN [b \in DOMAIN gaa |-> [gaa[b] EXCEPT !.cl = FALSE]] ELSE gaa
+  LET base == IF kd = "start" \/ IsStop(kd) THEN [b \in DOMAIN gaa |-> [gaa[b] EXCEPT !.cl = FALSE]] ELSE gaa
       mine == IF kd = "start" THEN [GAIdle EXCEPT !.fr = gg.finalRet, !.ph = "called", !.kind = kd]
               ELSE IF IsStop(kd) THEN [GAIdle EXCEPT !.cl = gg.run /\ ~\E b \in DOMAIN gaa : IsStop(gaa[b].kind), !.ph = "called", !.kind = kd]
               ELSE IF IsWait(kd) THEN [GAIdle EXCEPT !.cl = gg.pendNW, !.wf = gg.pendFinal, !.ph = "called", !.kind = kd]
@@ -140,7 +142,7 @@ GDoneBad(gg) == IF gg.mustDone /\ gg.dc + 1 # 1 THEN {"DoneExactlyOnceIfFinal" \
 
 \* --- run(until=...): the caller's predicate ended the loop; the service stops by itself, so a stop() that
 \* is in progress is no longer a stop of a started service
-GUntilG(gg) == [gg EXCEPT !.run = FALSE, !.dirty = TRUE]
+GUntilG(gg) == [gg EXCEPT !.run = FALSE, !.dirty = TRUE, !.everStop = TRUE]
 GUntilA(gaa) == [b \in DOMAIN gaa |-> [gaa[b] EXCEPT !.cl = FALSE]]
 
 \* --- the finally block is about to read the final-stop flag (logged just before the read) -----------------
@@ -151,9 +153,9 @@ GFinG(gg, gaa) ==
              !.window = gg.window \/ \E b \in DOMAIN gaa :
                            gaa[b].cl /\ Fin(gaa[b].kind) /\ gaa[b].ph \in {"called", "inwake", "postwake"}]
 
-\* the loop reaches its finally block right after a do() that raised although nobody asked it to stop
+\* the loop reaches its finally block right after a do() that raised although nobody has ever asked it to stop
 GFinBad(gg, gaa) ==
-  IF ~gg.dirty /\ gg.last = "fail" /\ ~\E b \in DOMAIN gaa : IsStop(gaa[b].kind) THEN {"SurvivesAnything"} ELSE {}
+  IF ~gg.everStop /\ gg.last = "fail" THEN {"SurvivesAnything"} ELSE {}
 
 \* --- run() returns (exc: an exception escaped from it) ---------------------------------------------
 GExitG(gg, gaa) == [gg EXCEPT !.run = FALSE, !.dirty = TRUE]
